@@ -152,3 +152,103 @@ pub open spec fn strip(line: Seq<u8>, lt: LineTerminator) -> Seq<u8> {
     }
 }
 
+
+// ---- lines of a suffix are the lines of the whole, shifted (the suffix starts at a line start)
+pub proof fn lemma_one_line_shift(b: Seq<u8>, t: u8, pos: int, s: int, e: int)
+    requires 0 <= pos <= b.len(), line_bound(b, t, pos), 0 <= s, s <= e, e <= b.len() - pos,
+    ensures
+        one_line(b.subrange(pos, b.len() as int), t, s, e) == one_line(b, t, pos + s, pos + e),
+        b.subrange(pos, b.len() as int).subrange(s, e) =~= b.subrange(pos + s, pos + e),
+{
+    let sub = b.subrange(pos, b.len() as int);
+    assert forall|i: int| 0 <= i < sub.len() implies sub[i] == b[pos + i] by {}
+    if s < e {
+        assert(sub[e - 1] == b[pos + e - 1]);
+        if s > 0 { assert(sub[s - 1] == b[pos + s - 1]); }
+        if no_term(sub, t, s, e - 1) {
+            assert forall|i: int| pos + s <= i < pos + e - 1 implies #[trigger] b[i] != t by {
+                assert(sub[i - pos] == b[i]);
+            }
+        }
+        if no_term(b, t, pos + s, pos + e - 1) {
+            assert forall|i: int| s <= i < e - 1 implies #[trigger] sub[i] != t by {
+                assert(sub[i] == b[pos + i]);
+            }
+        }
+    }
+}
+
+pub proof fn lemma_line_start_of_shift(b: Seq<u8>, t: u8, pos: int, i: int)
+    requires 0 <= pos <= b.len(), is_line_start(b, t, pos), 0 <= i <= b.len() - pos,
+    ensures line_start_of(b.subrange(pos, b.len() as int), t, i) + pos == line_start_of(b, t, pos + i),
+    decreases i,
+{
+    let sub = b.subrange(pos, b.len() as int);
+    if i > 0 {
+        assert(sub[i - 1] == b[pos + i - 1]);
+        if sub[i - 1] != t {
+            lemma_line_start_of_shift(b, t, pos, i - 1);
+        }
+    }
+}
+
+pub proof fn lemma_line_start_of_le(b: Seq<u8>, t: u8, i: int)
+    requires 0 <= i <= b.len(),
+    ensures 0 <= line_start_of(b, t, i) <= i, is_line_start(b, t, line_start_of(b, t, i)),
+        no_term(b, t, line_start_of(b, t, i), i),
+    decreases i,
+{
+    if i > 0 && b[i - 1] != t {
+        lemma_line_start_of_le(b, t, i - 1);
+    }
+}
+
+pub proof fn lemma_line_end_from_shift(b: Seq<u8>, t: u8, pos: int, i: int)
+    requires 0 <= pos <= b.len(), 0 <= i <= b.len() - pos,
+    ensures line_end_from(b.subrange(pos, b.len() as int), t, i) + pos == line_end_from(b, t, pos + i),
+    decreases b.len() - pos - i,
+{
+    let sub = b.subrange(pos, b.len() as int);
+    if i < sub.len() {
+        assert(sub[i] == b[pos + i]);
+        if sub[i] != t {
+            lemma_line_end_from_shift(b, t, pos, i + 1);
+        }
+    }
+}
+
+pub proof fn lemma_line_end_from_props(b: Seq<u8>, t: u8, i: int)
+    requires 0 <= i <= b.len(),
+    ensures
+        i <= line_end_from(b, t, i) <= b.len(),
+        i < b.len() ==> i < line_end_from(b, t, i),
+        no_term(b, t, i, line_end_from(b, t, i) - 1),
+        line_bound(b, t, line_end_from(b, t, i)),
+        i < b.len() ==> (b[line_end_from(b, t, i) - 1] == t || line_end_from(b, t, i) == b.len()),
+    decreases b.len() - i,
+{
+    if i < b.len() && b[i] != t {
+        lemma_line_end_from_props(b, t, i + 1);
+    }
+}
+
+/// two lines that overlap are the same line
+pub proof fn lemma_lines_disjoint(b: Seq<u8>, t: u8, a1: int, b1: int, a2: int, b2: int)
+    requires one_line(b, t, a1, b1), one_line(b, t, a2, b2), a1 < b2, a2 < b1,
+    ensures a1 == a2 && b1 == b2,
+{
+    if a1 < a2 {
+        assert(b[a2 - 1] == t);
+        assert(a1 <= a2 - 1 < b1 - 1);
+    }
+    if a2 < a1 {
+        assert(b[a1 - 1] == t);
+        assert(a2 <= a1 - 1 < b2 - 1);
+    }
+    if b1 < b2 {
+        assert(b[b1 - 1] == t);
+    }
+    if b2 < b1 {
+        assert(b[b2 - 1] == t);
+    }
+}
